@@ -396,6 +396,9 @@ pub enum Twin {
         schedule: Vec<(u8, u8, i8)>,
         #[serde(default)]
         ctor_faults: Vec<(u32, u8, u8)>,
+        /// stack size of each caller thread in KiB (0 or missing = the platform default)
+        #[serde(default)]
+        stacks_kb: Vec<u16>,
     },
 }
 
